@@ -188,6 +188,20 @@ CHECKS["C15"] = dict(
     note=TRUST + "Assumes untorn aligned 8-byte stores and termination. Not decided: equality of the sums with an independent "
          "oracle, the scipy route.")
 
+CHECKS["C11"] = dict(
+    category="other", design_ref="DESIGN.md section 3 / C11",
+    technique="symbolic index analysis of the raster scan on the clang AST (neighbour-offset table per region), CFG guard "
+              "rules, disjoint-set typestate / pairing rules, affine write coverage, OpenMP discipline",
+    text="Static: (R1) for each of the four regions of the dense scan the set of (neighbour offset, needs-eightconnected) "
+         "links is computed from the subscripts and compared with the table of already-visited neighbours that exist "
+         "there; sparse window constants; (R2) all three variants test v > threshold strictly; (R3) every dset_new result is "
+         "assigned back to the set it grew, initialise/compress/free pairing, compressed table applied, dset_link points "
+         "higher ids at lower, the running count survives table growth (last store covering the count cell); (R4) every "
+         "label cell is written on every path (affine coverage + first pixel both branches); (R5) relabel loop race free. "
+         "Necessary conditions; the union-find correctness argument itself is not mechanised.",
+    note=TRUST + "Assumes ns, nf >= 2 and sorted sparse input. Not decided: that these unions yield exactly the connected "
+         "components, the returned count, equality of the partitions of the three variants.")
+
 NOT_YET = {}
 
 NOT_APPLICABLE = {
